@@ -141,7 +141,7 @@ func driveComp(args []string) int {
 				return
 			}
 			seen++
-			if seen%stride == 0 {
+			if thinKeep(bytesOf(c.Src), stride, int(seed)) {
 				emit(bytesOf(c.Src), raw)
 			}
 		})
